@@ -70,7 +70,7 @@ def run_stage(ctx, prefixes, thorough=False):
         off = ctx.seed % max(1, int(step))
         models = [models[min(len(models) - 1, int(k * step) + off)] for k in range(cap)]
     scen = os.path.join(ctx.scratch, "cm-scen.ndjson")
-    parts = 8
+    parts = 16
     files = []
     for part in range(parts):
         fn = "%s.%d" % (scen, part)
@@ -83,7 +83,11 @@ def run_stage(ctx, prefixes, thorough=False):
 
     def one(fn):
         out = fn + ".trace"
-        vlib.run_harness(binary, ["-in", fn, "-out", out], timeout=3000)
+        try:
+            vlib.run_harness(binary, ["-in", fn, "-out", out], timeout=3000)
+        except vlib.Infra as e:
+            vlib.log("harness part %s failed (%s); retrying once" % (os.path.basename(fn), str(e)[:160].replace("\n", " ")))
+            vlib.run_harness(binary, ["-in", fn, "-out", out, "-watchdog", "600"], timeout=6000)
         return out
     with concurrent.futures.ThreadPoolExecutor(max_workers=parts) as ex:
         traces = list(ex.map(one, files))
